@@ -305,6 +305,8 @@ type c11Gen struct {
 	scopes  [][]string        // scopes that can be re-opened / named into (absolute paths); [] = root
 	methods []*c11Method
 	feature map[string]bool
+	clean   bool // avoid every construct with a recorded known finding (most cases), so that they pass the whole oracle
+	inWhile bool
 }
 
 func c11Key(p []string) string { return strings.Join(p, ".") }
@@ -378,7 +380,7 @@ func (g *c11Gen) data(depth int) c11Node {
 func (g *c11Gen) declName(scope []string, prefix byte) (c11Name, []string, string) {
 	r := g.r
 	switch k := r.intn(12); {
-	case k == 0 && len(scope) > 0: // ^NAME -> parent scope
+	case k == 0 && len(scope) > 0 && !g.clean: // ^NAME -> parent scope
 		up := 1
 		if len(scope) > 1 && r.chance(30) {
 			up = 2
@@ -388,7 +390,7 @@ func (g *c11Gen) declName(scope []string, prefix byte) (c11Name, []string, strin
 		g.feature["name-caret"] = true
 		return c11Name{carets: up, segs: []string{seg}}, tgt, seg
 	case k == 1: // \abs.path.NAME into an existing scope
-		tgt := g.scopes[r.intn(len(g.scopes))]
+		tgt := g.pickScope()
 		seg := g.fresh(prefix, tgt)
 		g.feature["name-absolute"] = true
 		g.noteThrough(tgt)
@@ -404,6 +406,25 @@ func (g *c11Gen) declName(scope []string, prefix byte) (c11Name, []string, strin
 	}
 	seg := g.fresh(prefix, scope)
 	return c11Name{segs: []string{seg}}, scope, seg
+}
+
+// through: does looking `path` up descend through a table-declared scoped object?
+func (g *c11Gen) through(path []string) bool {
+	for i := 1; i < len(path); i++ {
+		if k := g.decl[c11Key(path[:i])]; k != "scope" && k != "" {
+			return true
+		}
+	}
+	return false
+}
+
+func (g *c11Gen) pickScope() []string {
+	for {
+		tgt := g.scopes[g.r.intn(len(g.scopes))]
+		if !g.clean || !g.through(tgt) {
+			return tgt
+		}
+	}
 }
 
 // noteThrough records the D6 feature: a path whose lookup has to descend through an object that is
@@ -434,7 +455,7 @@ func (g *c11Gen) objs(scope []string, depth, n int) []c11Node {
 			l.w = c11Width(r, len(l.body()))
 			out = append(out, l)
 		case k < 9 && depth > 0: // Scope(existing)
-			tgt := g.scopes[r.intn(len(g.scopes))]
+			tgt := g.pickScope()
 			var nm c11Name
 			switch {
 			case len(tgt) == 0:
@@ -490,6 +511,9 @@ func (g *c11Gen) objs(scope []string, depth, n int) []c11Node {
 						if r.chance(30) {
 							bits = r.intn(5000)
 							w = 2 + r.intn(3)
+							if bits > 0xfff && w < 3 {
+								w = 3
+							}
 						}
 						f.units = append(f.units, fmt.Sprintf("u%s:%d:%d", useg, w, bits))
 						f.uenc = append(f.uenc, append([]byte(useg), c12EncPkgLen(uint32(bits), w)...))
@@ -613,7 +637,10 @@ func (g *c11Gen) callable(scope []string) []*c11Method {
 	return out
 }
 
-func (g *c11Gen) term(scope []string, depth int) c11Node {
+func (g *c11Gen) term(scope []string, depth int) c11Node { return g.termX(scope, depth, false) }
+
+// termX: asArg = the term is an argument of a method call
+func (g *c11Gen) termX(scope []string, depth int, asArg bool) c11Node {
 	r := g.r
 	switch r.intn(8) {
 	case 0:
@@ -626,7 +653,7 @@ func (g *c11Gen) term(scope []string, depth int) c11Node {
 			m := ms[r.intn(len(ms))]
 			l := &c11List{kind: "call", name: c11Name{segs: []string{m.name}}}
 			for i := 0; i < m.argc; i++ {
-				l.kids = append(l.kids, g.term(scope, depth-1))
+				l.kids = append(l.kids, g.termX(scope, depth-1, true))
 			}
 			g.feature["call"] = true
 			if depth < 2 {
@@ -636,9 +663,13 @@ func (g *c11Gen) term(scope []string, depth int) c11Node {
 			return l
 		}
 	case 4:
-		if depth > 0 {
+		if depth > 0 && !(g.clean && asArg) {
 			l := &c11List{kind: "add", tgt: r.intn(3) - 1}
-			l.kids = []c11Node{g.term(scope, depth-1), g.term(scope, depth-1)}
+			d := depth - 1
+			if g.clean && g.inWhile {
+				d = 0 // no calls among the operands
+			}
+			l.kids = []c11Node{g.term(scope, d), g.term(scope, d)}
 			return l
 		}
 	}
@@ -659,15 +690,18 @@ func (g *c11Gen) stmts(scope []string, depth, n int) []c11Node {
 				m := ms[r.intn(len(ms))]
 				l := &c11List{kind: "call", name: c11Name{segs: []string{m.name}}}
 				for i := 0; i < m.argc; i++ {
-					l.kids = append(l.kids, g.term(scope, 1))
+					l.kids = append(l.kids, g.termX(scope, 1, true))
 				}
 				g.feature["call"] = true
 				g.noteCallArgs(l)
 				out = append(out, l)
 			}
 		case 4:
-			if depth > 0 {
+			if depth > 0 && !(g.clean && g.inWhile) {
 				body := g.stmts(scope, depth-1, r.intn(3))
+				if g.clean && c11NoObjects(body) {
+					body = append(body, &c11List{kind: "store", kids: []c11Node{g.integer()}, ints: []uint64{uint64(r.intn(8))}})
+				}
 				l := &c11List{kind: "if", kids: append([]c11Node{g.term(scope, 1)}, body...)}
 				l.w = c11Width(r, len(l.body()))
 				g.feature["if"] = true
@@ -677,8 +711,11 @@ func (g *c11Gen) stmts(scope []string, depth, n int) []c11Node {
 				out = append(out, l)
 			}
 		case 5:
-			if depth > 0 {
+			if depth > 0 && !(g.clean && g.inWhile) {
+				was := g.inWhile
+				g.inWhile = true
 				l := &c11List{kind: "while", kids: append([]c11Node{g.term(scope, 1)}, g.stmts(scope, depth-1, r.intn(3))...)}
+				g.inWhile = was
 				l.w = c11Width(r, len(l.body()))
 				g.feature["while-deferred"] = true
 				out = append(out, l)
@@ -713,7 +750,7 @@ func (g *c11Gen) table(first bool) []c11Node {
 		top = g.objs(nil, 3, 2+r.intn(6))
 	} else { // later tables mostly extend existing scopes
 		for k := 1 + r.intn(3); k > 0; k-- {
-			tgt := g.scopes[r.intn(len(g.scopes))]
+			tgt := g.pickScope()
 			if len(tgt) == 0 {
 				top = append(top, g.objs(nil, 2, 1+r.intn(2))...)
 				continue
@@ -821,6 +858,7 @@ func TestVerifC11(t *testing.T) {
 	for i := 0; i < n; i++ {
 		r := rng.fork()
 		g := c11NewGen(r)
+		g.clean = r.chance(70)
 		c := c11Case{id: fmt.Sprint(i)}
 		for k := 1 + r.intn(3); k > 0; k-- {
 			c.tables = append(c.tables, g.table(len(c.tables) == 0))
